@@ -208,7 +208,7 @@ def request(case):
 def capped(obs):
     """the runtime's safety cap: a turn with more than 100 new events is cut off and the internal-error utterance appended (long
     rail lists whose LAST rails block: the refusal tail comes on top of all the loop iterations) - outside the model, counted in the tags"""
-    return len(obs.get("events") or []) > 100 and (obs.get("response") or "").endswith(po.INTERNAL_ERROR)
+    return bool(obs.get("event_cap_hit")) or (len(obs.get("events") or []) > 100 and (obs.get("response") or "").endswith(po.INTERNAL_ERROR))
 
 
 def compare(case, obs, m):
@@ -283,7 +283,11 @@ def documented(case):
 def oracle(case, obs):
     """the documentation table, for rails of the shipped shapes (independent of the Lean model)"""
     if capped(obs):
-        return None
+        # the cap excuses LONG documented runs only (a rail takes about eleven events)
+        n_doc = len(case.get("input", [])) + len(case.get("output", []))
+        if n_doc >= 5:
+            return None
+        return f"interp: the turn was cut off by the runtime's safety cap (more than 100 events) with {n_doc} rail(s) configured: rails invoked {obs.get('calls', [])[:8]}…"
     if "exc" in obs:
         return f"interp: generate raised {obs['exc']}"
     (exp_calls, exp_llm, reply), _ = documented(case)
